@@ -225,7 +225,8 @@ JScale(line) ==
       m == Len(line.lens) IN
   [ cls |-> "Scale/" \o line.shape \o ">" \o obs.out,
     fail |-> If(\A i \in 1..m : obs.outs[i] = "ok" /\ obs.ns[i] = line.lens[i], "scale_ok") \cup
-             If(\A i, j \in 1..m : i < j => obs.us[j] <= MinI(MaxI(obs.us[i], 10000), 10000000) * ((line.lens[j] \div line.lens[i]) + 1) * 12, "dec_time") \cup
+             \* (every size against the SMALLEST one: between two large sizes the smaller may happen to run unusually fast)
+             If(\A j \in 2..m : obs.us[j] <= MinI(MaxI(obs.us[1], 10000), 10000000) * ((line.lens[j] \div line.lens[1]) + 1) * 12, "dec_time") \cup
              If(\A i \in 1..m : obs.alloc[i] <= 64 * line.lens[i] + 1048576, "dec_alloc") ]
 
 \* the same small message decoded many times by one recycled decoder state: no single call allocates out of
